@@ -22,10 +22,12 @@ import (
 	"fmt"
 	"math/big"
 	"os"
+	"os/exec"
 	"runtime"
 	"runtime/pprof"
 	"sort"
 	"strings"
+	"syscall"
 	"time"
 
 	"gitlab.com/aquachain/aquachain/aquadb"
@@ -1500,7 +1502,108 @@ func mustJSON(v interface{}) []byte {
 
 // ---------------------------------------------------------------- main
 
+// probe mode (C07_PROBE=<case json>): run one case in this process, without tracer and model, under an
+// address-space limit, and print one line.  The parent uses it for inputs that could make a broken
+// contract take the whole process down (a Go "fatal error: out of memory" cannot be recovered).
+func probeMain(js string) {
+	var k tcase
+	if err := json.Unmarshal([]byte(js), &k); err != nil {
+		fmt.Println("probe-bad-case", err)
+		os.Exit(3)
+	}
+	lim := uint64(6 << 30)
+	syscall.Setrlimit(syscall.RLIMIT_AS, &syscall.Rlimit{Cur: lim, Max: lim})
+	st := buildState(&k)
+	caller := addr0x(k.Caller)
+	ctx := vm.Context{CanTransfer: core.CanTransfer, Transfer: core.Transfer, GetHash: getHash,
+		Origin: caller, GasPrice: big.NewInt(gasPriceV), Coinbase: common.HexToAddress(coinbaseHx), GasLimit: gasLimit,
+		BlockNumber: big.NewInt(k.Height), Time: big.NewInt(timeV), Difficulty: big.NewInt(diffV)}
+	evm := vm.NewEVM(ctx, st, params.MainnetChainConfig, vm.Config{})
+	data := []byte{}
+	if k.Data != "-" && k.Data != "" {
+		data = vh.UnHex(k.Data)
+	}
+	var m0, m1 runtime.MemStats
+	runtime.ReadMemStats(&m0)
+	var left uint64
+	pan, pv := vh.CatchPanic(func() {
+		if k.Kind == "call" {
+			_, left, _ = evm.Call(vm.AccountRef(caller), addr0x(k.Target), data, k.Gas, big0x(k.Value))
+		} else {
+			_, _, left, _ = evm.Create(vm.AccountRef(caller), data, k.Gas, big0x(k.Value))
+		}
+	})
+	runtime.ReadMemStats(&m1)
+	if pan {
+		fmt.Printf("probe-done panic %s\n", firstLine(fmt.Sprint(pv)))
+		return
+	}
+	fmt.Printf("probe-done ok %d %d\n", left, m1.TotalAlloc-m0.TotalAlloc)
+}
+
+// probe runs the case in a child process; healthy = it came back without panic and within the heap bound
+func (ch *checker) probe(k *tcase) (healthy bool) {
+	cmd := exec.Command(os.Args[0])
+	cmd.Env = append(os.Environ(), "C07_PROBE="+string(mustJSON(k)))
+	type res struct {
+		out []byte
+		err error
+	}
+	done := make(chan res, 1)
+	go func() {
+		o, err := cmd.CombinedOutput()
+		done <- res{o, err}
+	}()
+	var r res
+	select {
+	case r = <-done:
+	case <-time.After(30 * time.Second):
+		if cmd.Process != nil {
+			cmd.Process.Kill()
+		}
+		ch.c.Violate("no-termination/"+k.Class+"/"+caseHash(k), "the call did not return within 30 s (child process killed)", k)
+		return false
+	}
+	out := string(r.out)
+	i := strings.Index(out, "probe-done ")
+	if i < 0 {
+		msg := "no output"
+		for _, l := range strings.Split(out, "\n") {
+			if strings.HasPrefix(l, "fatal error") || strings.HasPrefix(l, "runtime:") {
+				msg = l
+				if strings.HasPrefix(l, "fatal error") {
+					break
+				}
+			}
+		}
+		ch.c.Violate("node-crash/"+k.Class+"/"+firstLine(msg), fmt.Sprintf("the call takes the whole process down (not recoverable): %s (%v)", firstLine(msg), r.err), k)
+		return false
+	}
+	f := strings.Fields(firstLine(out[i:]))
+	if len(f) >= 2 && f[1] == "panic" {
+		return true // recoverable: the in-process run reports it with the usual signature
+	}
+	if len(f) == 4 {
+		var left, alloc uint64
+		fmt.Sscan(f[2], &left)
+		fmt.Sscan(f[3], &alloc)
+		used := k.Gas - left
+		if left > k.Gas {
+			used = 0
+		}
+		if used <= (1<<62)/heapPerGas && alloc > heapBase+heapPerGas*used {
+			ch.c.Violate("heap-not-paid-for/"+caseHash(k), fmt.Sprintf("the call allocated %d bytes on the Go heap for %d gas paid (bound %d + %d per gas; measured in a child process)", alloc, used, heapBase, heapPerGas), k)
+			return false
+		}
+	}
+	return true
+}
+
 func main() {
+	if js := os.Getenv("C07_PROBE"); js != "" {
+		probeMain(js)
+		return
+	}
 	c := vh.Init("C07")
 	if pf := os.Getenv("C07_PROFILE"); pf != "" {
 		f, _ := os.Create(pf)
@@ -1785,6 +1888,20 @@ func modexpDanger(in []byte) uint64 {
 	return m
 }
 
+// a length field bigModExp.Run would take (after truncation to uint64) of a megabyte or more
+func modexpRisky(in []byte) bool {
+	for i := 0; i < 3; i++ {
+		f := make([]byte, 32)
+		if len(in) > 32*i {
+			copy(f, in[32*i:])
+		}
+		if new(big.Int).SetBytes(f).Uint64() >= 1<<20 {
+			return true
+		}
+	}
+	return false
+}
+
 func (g *gen) adversarialInputs(p int64) [][]byte {
 	r := g.r
 	var ins [][]byte
@@ -1919,6 +2036,13 @@ func (ch *checker) precompileStream(g *gen) {
 					k := &tcase{Kind: "call", Height: h, Gas: gas, Value: "0x0", Caller: ha(addrCaller), Target: hx(big.NewInt(p)), Data: hexb(in),
 						Accts: baseAccts(nil, nil, nil), Class: fmt.Sprintf("precompile-stream/%d", p)}
 					before := len(c.Res.Violations)
+					if p == 5 && active && modexpRisky(in) {
+						c.Count("precompile-stream/probed-in-child-process")
+						if !ch.probe(k) {
+							tripped = true
+							continue
+						}
+					}
 					// the extracted model computes a 256-bit modular exponentiation in about a second: sampled
 					heavy := p == 5 && len(in) > 128 && in[63] >= 31 && in[95] >= 31
 					ch.check(k, len(in) <= 4096 && (p != 5 || modexpDanger(in) <= 4096) && (!heavy || (idx%16 == 0 && gas == gasLimit)))
